@@ -90,6 +90,29 @@ def run():
     ok, _ = loader.validate_trace("chain", "dA_rA_lA_lA", [e for e in r["log"] if e[1] != "loaded.clear"], wd, "stale")
     if ok:
         failures.append("an event log with refresh but without the loaded.clear event was accepted")
+    # 7b. spec -> code: a behaviour of the model replayed into the real loader is followed (no divergence); the same
+    # record with one event of the model's sequence altered, or another outcome, is reported as a divergence
+    def _div(recs, name):
+        d = C.fresh_dir(os.path.join(C.BUILD, "selftest_" + name))
+        w = C.ObsWriter(os.path.join(d, "obs"))
+        for r in recs:
+            w.write(copy.deepcopy(r))
+        w.close()
+        v, _ = C.run_judges("JudgeLoader.tla", "JudgeLoader.cfg", w.files)
+        return [x for x in v if x[0] == "DIVERGENCE"], [x for x in v if x[0] == "VIOL"]
+    with C.quiet():
+        beh = list(loader.replay({"beh": True, "graph": "chain", "prog": "lA_lA", "cache": "empty", "n": 3}))[:1]
+    dv, vi = _div(beh, "beh_good")
+    if dv or vi:
+        failures.append("a behaviour of the model replayed into the real loader was not followed: %r %r" % (dv, vi))
+    bad = copy.deepcopy(beh)
+    bad[0]["model_log"][3]["k"] = "loaded.get"
+    if not _div(bad, "beh_event")[0]:
+        failures.append("a behaviour whose third event differs from the real event was accepted as followed")
+    bad = copy.deepcopy(beh)
+    bad[0]["model_loads"][0]["none"] = True
+    if not _div(bad, "beh_outcome")[0]:
+        failures.append("a behaviour with another outcome than the real execution was accepted as followed")
     # 8. values: a stored value of another type than the dtype's
     from . import values, card
     with C.quiet():
@@ -112,5 +135,5 @@ def run():
         failures.append("a cardinality with min > max was not rejected (C09/CardNF)")
     for f in failures:
         print("SELFTEST-FAILURE: " + f)
-    print("selftest: %d corruption checks, %d failures" % (12, len(failures)))
+    print("selftest: %d corruption checks, %d failures" % (15, len(failures)))
     return 2 if failures else 0
